@@ -15,8 +15,8 @@ META = dict(
     bounds=dict(
         quick="(a) ITS built by ITSConstruction from every reactant/product pair on n<=3 shared atoms (orders per side "
               "symbolic in {0,1,1.5,2,3}, element in {C,H,N,O}, hcount 0..2, charge -1..1), with a solver-chosen "
-              "renumbering; (b) synthetic ITS graphs on all connected and disconnected shapes with 4 nodes plus the path "
-              "P5 and P6 and a 5-ring, order pairs symbolic, radii 0..3",
+              "renumbering; (b) synthetic ITS graphs on all connected and disconnected shapes with 4 nodes plus the paths "
+              "P5, P6, a 5-ring, and 4-ring/triangle/5-ring with pendant atoms, order pairs symbolic, radii 0..3",
         thorough="(a) n=4; (b) all shapes with 5 nodes, P7, 6-ring, radii 0..3",
     ),
     outside=["rsmi_to_its(core=True) front end (RDKit)", "get_rc(disconnected=True / keep_mtg=True) variants",
@@ -151,12 +151,18 @@ def shards(tier, seed):
         fams.append((5, [[1, 2], [2, 3], [3, 4], [4, 5]]))
         fams.append((6, [[1, 2], [2, 3], [3, 4], [4, 5], [5, 6]]))
         fams.append((5, [[1, 2], [2, 3], [3, 4], [4, 5], [1, 5]]))
+        # rings with pendant atoms: a ball that has to be reached around a ring
+        fams.append((5, [[1, 2], [2, 3], [3, 4], [1, 4], [4, 5]]))
+        fams.append((5, [[1, 2], [2, 3], [1, 3], [3, 4], [2, 5]]))
+        fams.append((6, [[1, 2], [2, 3], [3, 4], [4, 5], [1, 5], [5, 6]]))
     else:
         sh.append(dict(h="rc_of_reaction", params=dict(n=4, relab=False)))
         fams += [(4, es) for es in all_shapes(4) if es] + [(5, es) for es in all_shapes(5, max_edges=6) if es]
         fams.append((6, [[1, 2], [2, 3], [3, 4], [4, 5], [5, 6]]))
         fams.append((7, [[1, 2], [2, 3], [3, 4], [4, 5], [5, 6], [6, 7]]))
         fams.append((6, [[1, 2], [2, 3], [3, 4], [4, 5], [5, 6], [1, 6]]))
+        fams.append((6, [[1, 2], [2, 3], [3, 4], [4, 5], [1, 5], [5, 6]]))
+        fams.append((7, [[1, 2], [2, 3], [3, 4], [4, 5], [1, 5], [5, 6], [3, 7]]))
     for n, es in fams:
         sh.append(dict(h="context", params=dict(n=n, edges=es)))
     return sh
